@@ -38,6 +38,8 @@ ASSUMPTIONS = [
     "'refused before anything is sent': any exception raised before the first command is yielded counts as a refusal",
     "'documented memory/response exceptions': dali.exceptions.MemoryError and subclasses, ResponseError, MissingResponse",
     "a fault only changes the answer seen by the library; 'wrong echo' is only injected where the unit did answer",
+    "a unit that does not advance DTR0 combined with an altered answer to the DTR0 check is unconstrained (the altered "
+    "answer can be the value a healthy unit would give)",
     "with allow_short_write the permitted lengths are 1..len(locations); a zero-length write is not exercised (statement "
     "silent; the library raises MemoryWriteFailure for it on values that need no unlock)",
     "with ignore_feedback=True nothing is demanded of a write to a unit that refuses it",
@@ -212,6 +214,10 @@ def run_case(case):
         if kind == "replace" and q >= n:
             cause = "wrong-dtr0-at-dtr0-check"
 
+    if injected and injected[1] == "replace" and injected[0] >= n and not unit_ok:
+        # the altered DTR0 answer may be exactly what a healthy unit would have said: nobody can tell
+        LAST_OUTCOME[0] = "outcome:unit-failure-masked-by-altered-dtr0-answer"
+        return out
     if ignore_feedback and not unit_ok:
         LAST_OUTCOME[0] = "outcome:ignored-feedback-of-refusing-unit"
         return out
